@@ -46,6 +46,11 @@ enum Path {
     CallbackableOwned,
     /// through the Callbackable trait on &mut OpaqueCallback
     CallbackableRef,
+    /// the same entry points fed from a lazy source passed by reference: what is left in the source
+    /// afterwards shows how many items were pulled from it
+    FeedIntoByRef,
+    FeedIntoMutByRef,
+    ExtendByRef,
 }
 
 struct Custom(Vec<u64>);
@@ -71,7 +76,9 @@ fn drive_generic<C: Callbackable<Dc>>(mut cb: C, items: Vec<Dc>) -> usize {
 /// Feed `n` items (values 1..=n) through `path` into `sink`; closure sinks stop at `stop`.
 fn callback_case(n: usize, stop: usize, sink: Sink, path: Path) -> R {
     let drops_scope = DropScope::new();
-    let items: Vec<Dc> = (1..=n as u64).map(Dc::new).collect();
+    let lazy = matches!(path, Path::FeedIntoByRef | Path::FeedIntoMutByRef | Path::ExtendByRef);
+    let items: Vec<Dc> = if lazy { Vec::new() } else { (1..=n as u64).map(Dc::new).collect() };
+    let mut src = (1..=n as u64).map(Dc::new);
     let expect_offered = if sink == Sink::Closure && stop != 0 && stop <= n { stop } else { n };
     let mut seen: Vec<u64> = Vec::with_capacity(n + 1);
     let mut calls_after_stop = 0usize;
@@ -116,8 +123,22 @@ fn callback_case(n: usize, stop: usize, sink: Sink, path: Path) -> R {
             }
             Path::CallbackableOwned => Some(drive_generic(cb, items)),
             Path::CallbackableRef => Some(drive_generic(&mut cb, items)),
+            Path::FeedIntoByRef => Some(src.by_ref().feed_into(cb)),
+            Path::FeedIntoMutByRef => Some(src.by_ref().feed_into_mut(&mut cb)),
+            Path::ExtendByRef => {
+                cb.extend(src.by_ref());
+                None
+            }
         }
     };
+    if lazy {
+        // the source must have been advanced by exactly the items that were offered
+        let rest: Vec<Dc> = src.collect();
+        let rest_vals: Vec<u64> = rest.iter().map(|d| d.val).collect();
+        let want_rest: Vec<u64> = (expect_offered as u64 + 1..=n as u64).collect();
+        ensure!(rest_vals == want_rest, "cb:source_overrun", "after the sink stopped at item {} the source still yields {:?}, expected {:?}: items were pulled from the source without being offered (n={}, stop={})", expect_offered, rest_vals, want_rest, n, stop);
+        drop(rest);
+    }
     let want: Vec<u64> = (1..=expect_offered as u64).collect();
     let got: Vec<u64> = match sink {
         Sink::Closure => seen.clone(),
@@ -352,7 +373,7 @@ fn run(f: impl FnOnce() -> R, nontrivial: bool) -> CaseOut {
 }
 
 const SINKS: [Sink; 4] = [Sink::Closure, Sink::Vec, Sink::ExtendDeque, Sink::ExtendCustom];
-const PATHS: [Path; 6] = [Path::Call, Path::FeedInto, Path::FeedIntoMut, Path::Extend, Path::CallbackableOwned, Path::CallbackableRef];
+const PATHS: [Path; 9] = [Path::Call, Path::FeedInto, Path::FeedIntoMut, Path::Extend, Path::CallbackableOwned, Path::CallbackableRef, Path::FeedIntoByRef, Path::FeedIntoMutByRef, Path::ExtendByRef];
 const IOPS: [IOp; 10] = [IOp::NextNew, IOp::NextInto, IOp::NextAsCiter, IOp::NextTwice, IOp::NextSource, IOp::WrapOnly, IOp::Nth1, IOp::Skip2Next, IOp::StepBy2Take2, IOp::Take2Count];
 const SRCS: [Src; 3] = [Src::VecIter, Src::Mapped, Src::Unfused];
 
@@ -363,7 +384,7 @@ fn main() {
             name: "callbacks",
             explore: Box::new(|cx: &Cx| {
                 let n_max = cx.tier.pick(4, 7);
-                cx.rule("callbacks", &format!("item sequences of length 0..={} (drop-counting items) x stop position (never, every position 1..=len, one past the end) x sink {{closure, &mut Vec, from_extend VecDeque, from_extend custom Extend}} x path {{call loop, feed_into, feed_into_mut, Extend::extend, Callbackable on OpaqueCallback / &mut OpaqueCallback}}; oracle: sink sees exactly the offered prefix in order, nothing after the first false, reported count == items offered, each item dropped or held exactly once", n_max));
+                cx.rule("callbacks", &format!("item sequences of length 0..={} (drop-counting items) x stop position (never, every position 1..=len, one past the end) x sink {{closure, &mut Vec, from_extend VecDeque, from_extend custom Extend}} x path {{call loop, feed_into, feed_into_mut, Extend::extend, Callbackable on OpaqueCallback / &mut OpaqueCallback, and feed_into / feed_into_mut / extend from a lazy source passed by_ref()}}; oracle: the source is advanced by exactly the offered items, sink sees exactly the offered prefix in order, nothing after the first false, reported count == items offered, each item dropped or held exactly once", n_max));
                 for n in 0..=n_max {
                     for sink in SINKS {
                         let stops: Vec<usize> = if sink == Sink::Closure { (0..=n + 1).collect() } else { vec![0] };
